@@ -1,9 +1,12 @@
 -- Root of the `IweModel` library: the executable model (Model/), abstract specs (Spec/), helper
 -- lemmas (Lemmas/) and the property theorems (Props/), one file per property of /verif/properties.jsonl.
 import IweModel.Props.C01
+import IweModel.Props.C02
 import IweModel.Props.C04
+import IweModel.Props.C05
+import IweModel.Props.C06
 import IweModel.Props.C07
 import IweModel.Props.C15
 import IweModel.Props.C17
+import IweModel.Props.C18
 import IweModel.Props.C20
-import IweModel.Model.Paths
